@@ -65,7 +65,7 @@ impl Prop for P {
         }
     }
     fn cases(tier: Tier) -> u64 {
-        tier.pick(6_000, 150_000)
+        tier.pick(6_000, 60_000)
     }
     fn fixed_cases(_tier: Tier) -> Vec<Case> {
         (0..N_MISUSE).map(|kind| Case::Misuse { kind }).collect()
